@@ -555,7 +555,7 @@ def getter_view(tokens):
     return " ".join(out)
 
 
-LIFE_MARKS = ("U", "N", "P", "Q", "M", "C", "X")
+LIFE_MARKS = ("U", "N", "P", "Q", "M", "C", "X", "E", "L", "D")
 
 
 def life_segments(line):
@@ -621,8 +621,10 @@ def spec_view(op, line):
                 out.append(" ".join(sg[:4]))
             elif sg[0] == "Q":
                 out.append("Q " + ("unchanged" if [t for t in sg[1:] if not t.startswith(("fc=", "w="))] == first_c else "changed: " + " ".join(sg[1:])))
-            elif sg[0] == "X":
-                out.append(" ".join(sg[:4]))
+            elif sg[0] in ("X", "E", "L"):
+                out.append(" ".join(sg[:4]))            # cannot be opened: failure reported, object stays unparsed
+            elif sg[0] == "D":
+                out.append(" ".join(sg[:4] + sg[6:]))   # a directory reads as an empty file
             else:
                 out.append(" ".join(sg))
         return " | ".join(out)
@@ -886,7 +888,7 @@ def run(chk):
                        "NULL and empty names, a NUL inside an argument; string default NULL / empty / long, int default 0 / INT_MIN / INT_MAX / random, boolean default FALSE and TRUE, "
                        "double default +-0 / NaN / +-inf / denormal / random bits) compared with the model and, for documents, with the documented lookup (IniSpec.docFind); "
                        "(v) op life: unparsed object, NULL object, parse twice with the file rewritten in between, a path that does not exist parsed twice; "
-                       "op lifec: the parse whose final fclose reports a failure (-Wl,--wrap=fclose, the real call is made, its result scripted), then a second parse, then a missing file; "
+                       "op lifec: the parse whose final fclose reports a failure (-Wl,--wrap=fclose, the real call is made, its result scripted), then a second parse, then objects for a missing file, a path through a regular file (ENOTDIR), a 5000-byte name and a directory; "
                        "(vi) the double of every found value and of p_strtod is also judged against Python's correctly rounded float() (relative 1e-12) when the text is a plain decimal "
                        "numeral of at most 40 digits with |exponent| <= 280; (vii) pstring.c entry points: p_strchomp on every string of up to 5 (thorough 6) symbols over SP HT VT a, "
                        "on every single byte, NULL; p_strtok on every string of up to 5 (6) symbols over a b , SP with delimiter sets \",\" and \", \" plus changing / NULL delimiter sets and a NULL "
@@ -900,6 +902,7 @@ def run(chk):
         "isdigit is called by p_strtod on a plain (signed) char; glibc's table lookup returns 0 for bytes >= 0x80, as the model assumes",
         "the file is read back exactly as written (regular file on a local file system, fopen \"r\" does no translation on POSIX)",
         "allocation never fails in this check (C18 covers failure)",
+        "fopen (directory, \"r\") succeeds and the first fgets on it fails (Linux/glibc): a directory parses as an empty file (op lifec, segment D)",
         "the spec column is produced for documents satisfying PV.IniSpec.WF only: distinct section names, non-empty unquoted values, no blanks directly inside quotes, no NUL, lines <= 1024 bytes, no line that starts like a byte-order mark",
     ]
     return finish(chk)
